@@ -113,7 +113,11 @@ static void ev_reset(void) { int i; g_ev_calls = 0; for (i = 0; i < EV_COUNT; i+
     g_ev_result = (long long)(okexpr); if (g_ev_cur < EV_SEQ_MAX) g_ev_seq_res[g_ev_cur] = g_ev_result; return (okexpr); } while (0)
 
 int vh_close(int fd) { ev_note(EV_close); g_ev_fd = fd; EV_FAIL_OR(0); }
-int vh_closedir(DIR* d) { ev_note(EV_closedir); g_ev_dir = d; EV_FAIL_OR(0); }
+typedef struct vh_dirstream { int pos; int open; } vh_dirstream;
+static vh_dirstream g_ev_dirstream;          /* the one DIR object the model hands out */
+/* ghost life cycle of the directory stream: closedir ends it; any later use is a use of released host memory */
+#define EV_STREAM_LIVE(d) OBL(((vh_dirstream*)(d))->open, "host: a directory stream is only used (readdir/seekdir/telldir/closedir) while it is open - never after closedir")
+int vh_closedir(DIR* d) { ev_note(EV_closedir); g_ev_dir = d; EV_STREAM_LIVE(d); ((vh_dirstream*)d)->open = 0; EV_FAIL_OR(0); }
 off_t vh_lseek(int fd, off_t off, int whence) {
     if (g_ev_calls < EV_SEQ_MAX) { g_ev_seq_off[g_ev_calls] = off; g_ev_seq_whence[g_ev_calls] = whence; }
     ev_note(EV_lseek); g_ev_fd = fd; g_ev_off = off; g_ev_whence = whence;
@@ -175,8 +179,6 @@ long vh_random(void) { ND(long, ev_rnd); g_ev_random_calls++; return ev_rnd; }
 
 /* ---- directory streams: a ghost directory of up to 3 entries; telldir cookie of entry i is i+1 ---- */
 #define EV_DIR_MAX 3
-typedef struct vh_dirstream { int pos; int open; } vh_dirstream;
-static vh_dirstream g_ev_dirstream;          /* the one DIR object the model hands out */
 /* entries are kept in small separate arrays and copied into ONE static struct dirent by constant index (POSIX lets readdir
  * return storage that the next call overwrites); a symbolic index into an array of 280-byte struct dirent made CBMC 6.11
  * evaluate the same name differently through a pointer and through the array expression (native run disagreed) */
@@ -193,7 +195,7 @@ DIR* vh_opendir(const char* path) {
 }
 struct dirent* vh_readdir(DIR* d) {
     vh_dirstream* s = (vh_dirstream*)d; int p;
-    ev_note(EV_readdir); g_ev_dir = d;
+    ev_note(EV_readdir); g_ev_dir = d; EV_STREAM_LIVE(d);
     p = s->pos;
     if (p < 0 || p >= g_ev_dirent_count) return 0;
     if (p == 0) ev_fill_dirent(g_ev_names[0], g_ev_inos[0], g_ev_types[0]);
@@ -202,9 +204,9 @@ struct dirent* vh_readdir(DIR* d) {
     s->pos = p + 1;
     return &g_ev_cur_dirent;
 }
-long vh_telldir(DIR* d) { ev_note(EV_telldir); return (long)((vh_dirstream*)d)->pos; }
-void vh_seekdir(DIR* d, long loc) { ev_note(EV_seekdir); ((vh_dirstream*)d)->pos = (int)loc; }
-void vh_rewinddir(DIR* d) { ev_note(EV_seekdir); ((vh_dirstream*)d)->pos = 0; }
+long vh_telldir(DIR* d) { ev_note(EV_telldir); EV_STREAM_LIVE(d); return (long)((vh_dirstream*)d)->pos; }
+void vh_seekdir(DIR* d, long loc) { ev_note(EV_seekdir); EV_STREAM_LIVE(d); ((vh_dirstream*)d)->pos = (int)loc; }
+void vh_rewinddir(DIR* d) { ev_note(EV_seekdir); EV_STREAM_LIVE(d); ((vh_dirstream*)d)->pos = 0; }
 
 /* exit never returns */
 static int g_ev_exit_code = -1;
